@@ -162,7 +162,13 @@ func (fs *FileSystemOperation) SaveGatewayConfig(content []byte) error {
 }
 
 func (fs *FileSystemOperation) SaveMetricsConfig(content []byte) error {
-	return fs.storeFileOnDisk(environment.GetMetricsConfigFilePath(), content)
+	// The user's metrics file is the one that is backed up, cleaned and restored; when it
+	// does not exist GetMetricsConfigFilePath falls back to the built-in default file.
+	filePath := environment.GetUserMetricsConfigFilePath()
+	if filePath == "" {
+		filePath = environment.GetMetricsConfigFilePath()
+	}
+	return fs.storeFileOnDisk(filePath, content)
 }
 
 func (fs *FileSystemOperation) cleanUpFile(filePath string) error {
